@@ -221,7 +221,7 @@ func genSlot(r *hx.Rand, scheme string, affinity string, telStem int, identical 
 	unstable := unstableURNs && r.Fork("unstable").Chance(1, 5)
 	for try := 0; try < 200; try++ {
 		var a, b, country string
-		if unstable && (scheme == "tel" || scheme == "mailto" || scheme == "ext") {
+		if unstable && ((scheme == "tel" && unstableTel) || scheme == "mailto" || scheme == "ext") {
 			ur := r.Fork(fmt.Sprintf("u%d", try))
 			switch scheme {
 			case "tel": // no '+': no derivable country as stored; with a '+' prepended one twin becomes a number of a region
@@ -285,6 +285,10 @@ func genSlot(r *hx.Rand, scheme string, affinity string, telStem int, identical 
 
 // unstableURNs switches the normalization-unstable twin URNs on (always, except where a caller needs stable ones)
 var unstableURNs = true
+
+// unstableTel: tel twins without '+' ignore the shared stem, so they are left out of the channel sets in which the
+// leading digits pick the channel (there the divergent choice is exercised by the corpus scenarios)
+var unstableTel = true
 
 func btoi(b bool) int {
 	if b {
@@ -435,6 +439,8 @@ func genScenario(r *hx.Rand, id int) *scenario {
 	} else if n == "tel-two-countries" {
 		telMode = 3 // RW numbers starting 25078: both channels are candidates, the same one wins for both twins
 	}
+	unstableTel = telMode < 0
+	defer func() { unstableTel = true }()
 	sc.Country = hx.Pick(r, []string{"US", "RW", ""})
 	sc.Contact = genContact(r.Fork("contact"), contactUUID, 1000+r.Intn(9000000), sc.chans(), telMode)
 	sc.Trigger = hx.Pick(r, []string{"manual", "manual", "msg", "msg", "msg", "flow_action", "flow_action", "channel", "campaign", "optin", "ticket"})
